@@ -392,6 +392,7 @@ pub fn specs(tier: Tier) -> Vec<Spec> {
 }
 
 pub fn run(ctx: &mut Ctx) {
+    ctx.confirm_runs = 2;
     ctx.assume("which socket worker accepts a connection is the kernel's SO_REUSEPORT choice: sampled, not controlled; within one history requests are issued sequentially (the reference answer is then unique), concurrency comes from several harness threads driving the same tracker on disjoint torrents");
     ctx.assume("pipelining, > 16 headers and requests over 2048 bytes are outside the stated domain; TLS is not exercised");
     ctx.run_regress::<Case, _>("http", prop);
